@@ -145,6 +145,9 @@ struct Ctx {
     ma0: usize,
     ma_now: usize,
     fail_injected: bool,
+    replaying: bool,
+    floor: u64,
+    cp_floor: u64,
     last_allocated: usize,
     next_key: u64,
 }
